@@ -61,6 +61,7 @@ def items(ctx, un=gen.BODY_UN, bi=gen.BODY_BIN, n=None, depth=None, salt='items'
 
 def constraint_programs(ctx, n=None):
     rng = ctx.rng('constraints')
+    own = n is None       # (the fixed family at the end is for the C03 check itself; other checks borrow the random programs only)
     n = n or (200 if ctx.quick else 800)
     out = []
     for i in range(n):
@@ -94,6 +95,16 @@ def constraint_programs(ctx, n=None):
                 rules.append({'part': part, 'head': ('cons',), 'body': [(rng.choice('pnm'), tel), (rng.choice('pn'), ('patom', rng.choice(atoms), rng.choice([0, 1])))]})
         rng.shuffle(rules)
         out.append(('constraint', rules))
+    # fixed family: formulas over an atom that is in the atom base of the grounder WITHOUT a definition (the head of a rule whose body can never hold):
+    # it is false at every state, under every operator and sign
+    if not own:
+        return out
+    A_, B_ = ('atom', 'a'), ('atom', 'b')
+    undef = {'part': 'always', 'head': ('norm', 'b', 0), 'body': [('n', ('patom', 'b', 0)), ('p', ('patom', 'c', 0))]}
+    for f in (B_, ('not', B_), ('or', A_, B_), ('prev', None, B_), ('wnext', None, B_), ('since', None, B_), ('release', A_, B_), ('until', B_, A_), ('and', ('not', B_), ('next', None, A_))):
+        for sg in 'pnm':
+            out.append(('undefined-atom', [{'part': 'always', 'head': ('choice', ['a']), 'body': []}, undef, {'part': 'always', 'head': ('cons',), 'body': [(sg, ('tel', f))]}]))
+            out.append(('undefined-atom', [{'part': 'always', 'head': ('choice', ['a']), 'body': []}, {'part': 'initial', 'head': ('norm', 'd', 0), 'body': [('mn'[sg == 'n'], ('tel', f))]}, undef]))
     return out
 
 
